@@ -38,3 +38,29 @@ Definition Known_C16_2 (l r : list cap) (f : N) : Prop :=
 Definition llgr_dup (caps : list cap) : Prop :=
   exists v, first_llgr caps = Some v /\ ~ NoDup (map (fun e => fst (fst e)) v).
 Definition Known_C16_3 (l r : list cap) : Prop := llgr_dup l \/ llgr_dup r.
+
+(* -------------------------------------------------- prefix containment *)
+
+(* bit i (0 = most significant bit of the first octet) of an address given
+   as its octets in network order *)
+Definition obit (octets : list N) (i : nat) : bool :=
+  N.testbit (nth (Nat.div i 8) octets 0) (N.of_nat (7 - Nat.modulo i 8)%nat).
+
+(* "lies inside a configured dynamic-neighbour prefix": same address family
+   and the address agrees with the prefix on its leading [mask] bits *)
+Definition inside (net : ipnet) (addr : ipaddr) : Prop :=
+  match net, addr with
+  | Net4 a mask, A4 b | Net6 a mask, A6 b =>
+      forall i, (i < N.to_nat mask)%nat -> obit a i = obit b i
+  | _, _ => False
+  end.
+
+Definition octets_ok (w : nat) (l : list N) : Prop := length l = w /\ Forall (fun x => x < 256) l.
+
+(* well-formed values of the Rust types: 4 / 16 octets *)
+Definition net_ok (net : ipnet) : Prop :=
+  match net with Net4 a _ => octets_ok 4 a | Net6 a _ => octets_ok 16 a end.
+Definition addr_ok (addr : ipaddr) : Prop :=
+  match addr with A4 b => octets_ok 4 b | A6 b => octets_ok 16 b end.
+Definition width (net : ipnet) : N := match net with Net4 _ _ => 32 | Net6 _ _ => 128 end.
+Definition mask_of (net : ipnet) : N := match net with Net4 _ m | Net6 _ m => m end.
